@@ -237,11 +237,13 @@ func C03(c *core.Ctx) {
 			// read the target back, independently of the library
 			var after []*gen.DNode
 			unord := false
+			gen.CompoundInMap = 0
 			if tgtKind == "refstore" {
 				after = tgt
 			} else {
 				after = gen.FromMap(dc.kids, tgtMap, &unord)
 			}
+			input["compound_list_in_go_map"] = gen.CompoundInMap > 0
 			locAfter := locateBody(dc.kids, after, loc)
 			impl := "err " + errClass(eerr)
 			if eerr == nil {
@@ -416,7 +418,7 @@ func c03known(desc string, input map[string]interface{}, implStatus string) stri
 	yang, _ := input["yang"].(string)
 	mapTarget := tgt == "reflect-map" || tgt == "node-map"
 	switch {
-	case mapTarget && compoundKeyRe.MatchString(yang):
+	case mapTarget && compoundKeyRe.MatchString(yang) && input["compound_list_in_go_map"] == true:
 		return "map-list-compound-key"
 	}
 	return ""
